@@ -356,7 +356,8 @@ def suite_getters(tier, seed):
     # grammars the generator itself rejects in one variant are left out of the workspace (and reported)
     skip = {k for k, v in tlist.items() if isinstance(v, str)}
     ws = os.path.join(BUILD, f"ws_c16_{tier}")
-    where = G.emit_workspace(ok, mlist, ws, suites.NBINS, skip)
+    prefix = G.PREFIX + tier[0]          # c16gq0.. / c16gt0..: the tiers share one target directory
+    where = G.emit_workspace(ok, mlist, ws, suites.NBINS, skip, prefix)
     rc, err = corpus.build_workspace(ws)
     if rc != 0:
         raise RuntimeError("C16 workspace does not build (an accessor the model lists is not emitted, or the emitted code does not type-check):\n" + err[-4000:])
@@ -374,7 +375,7 @@ def suite_getters(tier, seed):
                 if rule in with_getters:
                     for s in ins:
                         cases.append((g["gid"], rule, v, "str", 0, 0, s))
-    impl = suites.run_bins(G.PREFIX, where, cases)
+    impl = suites.run_bins(prefix, where, cases)
     t4 = time.time()
     model = run_model(sexp, [f"getters run {c[0]} {c[2]} {c[1]} {corpus.hexs(c[6])}" for c in cases])
     t5 = time.time()
